@@ -29,7 +29,8 @@ Other == NW + 1     \* prime id of "somebody else" (a fresh prime in every posit
 None == -1
 
 VARIABLES rev,      \* sequence of revoked prime ids; accumulator index = Len(rev)
-          wit,      \* [W -> [issued, idx, o, good]]
+          wit,      \* [W -> [issued, idx, o, good, up]]   up = Witness.Updated: None before the first effective update,
+                    \* afterwards the signing time of the accumulator the last effective update brought
           upd,      \* [U -> [made, first, last, o, memo]]   events first..last, accumulator index = last
           tobj,     \* signing time of each SignedAccumulator OBJECT (object id = position). Witnesses and updates
                     \* hold pointers (field o): a successful Witness.Update makes the witness share the update's
@@ -48,7 +49,7 @@ UT(k) == tobj[upd[k].o]      \* time of the accumulator an update carries
 NoResult == [op |-> "none", w |-> 0, k |-> 0, res |-> "none", g |-> 0, h |-> 0, p |-> FALSE]
 
 Init == /\ rev = <<>>
-        /\ wit = [w \in W |-> [issued |-> FALSE, idx |-> 0, o |-> 0, good |-> TRUE]]
+        /\ wit = [w \in W |-> [issued |-> FALSE, idx |-> 0, o |-> 0, good |-> TRUE, up |-> None]]
         /\ upd = [k \in U |-> [made |-> FALSE, first |-> 0, last |-> 0, o |-> 0, memo |-> None]]
         /\ tobj = [x \in 1..(NW + NU + Spare) |-> 0]
         /\ nstep = 0
@@ -63,7 +64,7 @@ RevokeWit(w) == /\ n < MaxRev /\ wit[w].issued /\ RevokedAt(w) = 0
 \* witness whose u is garbage (used for "a failed update leaves the witness as it was")
 Issue(w, g) == /\ ~wit[w].issued
                /\ tobj' = [tobj EXCEPT ![w] = 0]                    \* witness w's own object has id w
-               /\ wit' = [wit EXCEPT ![w] = [issued |-> TRUE, idx |-> n, o |-> w, good |-> g]]
+               /\ wit' = [wit EXCEPT ![w] = [issued |-> TRUE, idx |-> n, o |-> w, good |-> g, up |-> None]]
                /\ UNCHANGED <<rev, upd, nstep>> /\ last' = NoResult
 \* an update carrying events f..n and the current accumulator (index n) signed at time t;
 \* f = n+1 means no events
@@ -88,7 +89,8 @@ Apply(w, k) ==
      IN IF a = our
           THEN IF UT(k) <= WT(w)
                  THEN /\ last' = R("noop") /\ UNCHANGED <<wit, upd, tobj>>
-                 ELSE /\ last' = R("oktime") /\ tobj' = [tobj EXCEPT ![wit[w].o] = UT(k)] /\ UNCHANGED <<wit, upd>>
+                 ELSE /\ last' = R("oktime") /\ tobj' = [tobj EXCEPT ![wit[w].o] = UT(k)]
+                      /\ wit' = [wit EXCEPT ![w].up = UT(k)] /\ UNCHANGED upd
         ELSE IF f > a \/ a <= our
           THEN /\ last' = R("noop") /\ UNCHANGED <<wit, upd, tobj>>
         ELSE IF f > our + 1
@@ -98,7 +100,7 @@ Apply(w, k) ==
              /\ IF hit
                   THEN /\ last' = R("revoked") /\ UNCHANGED wit
                 ELSE IF used = needed /\ wit[w].good
-                  THEN /\ wit' = [wit EXCEPT ![w].idx = a, ![w].o = upd[k].o]
+                  THEN /\ wit' = [wit EXCEPT ![w].idx = a, ![w].o = upd[k].o, ![w].up = UT(k)]
                        /\ last' = R("ok")
                   ELSE /\ last' = R("invalidated") /\ UNCHANGED wit
   /\ UNCHANGED rev
@@ -161,6 +163,8 @@ NeverRevalidated == \A w \in W : wit[w].issued /\ RevokedAt(w) # 0 => wit[w].idx
 \* a good witness stays valid against the accumulator it holds (abstractly: stays good)
 MonotoneA == \A w \in W : wit[w].issued => (wit'[w].idx = wit[w].idx /\ tobj'[wit'[w].o] >= WT(w)) \/ wit'[w].idx > wit[w].idx
 Monotone == [][MonotoneA]_vars
+\* Witness.Updated never runs ahead of the accumulator the witness holds
+UpdatedTracks == \A w \in W : wit[w].issued /\ wit[w].up # None => wit[w].up <= WT(w)
 FailedUpdateNoChange == [][last'.op = "apply" /\ last'.res \in {"toonew", "revoked", "invalidated", "noop"} => wit' = wit /\ tobj' = tobj]_vars
 \* completeness: an update whose window reaches back to the witness brings a good, unrevoked witness to its accumulator
 Advances == [][last'.op = "apply" /\ wit[last'.w].good /\ upd[last'.k].first <= wit[last'.w].idx + 1
